@@ -67,6 +67,7 @@ def errClass : ErrKind → String
   | .inNonObj => "TypeError"                 -- §11.8.7 step 5
   | .cyclicJSON => "TypeError"               -- §15.12.3 Str/JO step 1
   | .uriMalformed => "URIError"              -- §15.1.3
+  | .frozenWrite => "TypeError"              -- §8.12.5 [[Put]] / §8.12.9 with Throw = true (§15.4.4.7 push step 6 …)
 
 /-- §15.11.7: `new NativeError` has [[Prototype]] NativeError.prototype, whose [[Prototype]] is Error.prototype
     (§15.11.7.7) and whose `name` is the constructor's name (§15.11.7.9); the property text adds: non-empty message. -/
@@ -145,6 +146,10 @@ def actOut (files : List FileEnt) (a : Act) : FrameOut :=
 /-- the expected trace of a scenario: innermost first, truncated to the limit -/
 def trace (files : List FileEnt) (limit : Int) (sc : Scenario) : List FrameOut :=
   applyLimit limit ((acts "" false 0 sc.levels (raiseOff sc.raise)).reverse.map (actOut files))
+
+/-- ES5 raises these TypeErrors (§11.2.3 step 5, §11.2.2, §15.4.4.16-22, §15.3.4.3-5, §15.2.4.3, §15.9.5.44, §8.10.5)
+    without converting the offending value: no script function runs -/
+def messageScriptCalls (_s : MsgSite) : List String := []
 
 /-- an error's trace is a fact about the moment it was created: whenever it is read – after later errors were
     created and caught, in a later Run, from Go – it is the trace of its own creation -/
